@@ -346,9 +346,15 @@ func (t *Template) Clone() (*Template, error) {
 		}
 		if src.Tree == nil && src.text != t.text.Lookup(name) {
 			// Replaced by New(name) and not parsed since: the underlying set, and its
-			// clone, still hold the body of the template it replaced.
-			x.Tree = nil
-			ret.set[name] = &Template{nil, x, nil, ret.nameSpace}
+			// clone, still hold the body of the template it replaced. As in t, the
+			// new template is not the one registered in the underlying set, so that a
+			// later Parse treats both sets alike.
+			if x.Tree == nil {
+				ret.set[name] = &Template{nil, x, nil, ret.nameSpace}
+				continue
+			}
+			x.Tree = x.Tree.Copy()
+			ret.set[name] = &Template{nil, textClone.New(name), nil, ret.nameSpace}
 			continue
 		}
 		x.Tree = x.Tree.Copy()
